@@ -348,7 +348,7 @@ def _cmd(i, rc, makes):
     """a real shell command with the scripted behaviour (the model ignores its text; the real replay executes it)"""
     mk = "; ".join([f"mkdir -p $(dirname {f}) && printf 'DATA:{f}' > {f}" for f in makes])
     # the real replay also records the environment each command sees (X, Y: the overridable variables) in a side file named by $VERIF_ENVLOG
-    return f"sh -c \"printf out{i}; printf err{i} >&2; printf '%s,%s;' \\\"$X\\\" \\\"$Y\\\" >> $VERIF_ENVLOG; {mk + '; ' if mk else ''}exit {rc}\""
+    return f"sh -c \"printf out{i}; printf err{i} >&2; printf '%s,%s;' \\\"$X\\\" \\\"$Y\\\" >> $VERIF_ENVLOG; {mk + '; ' if mk else ''}{'kill -9 $$' if isinstance(rc, int) and rc < 0 else f'exit {rc}'}\""
 
 
 def _mk_job(n, named_mask, retsel, filesel, envsel, rcs, makes_last):
@@ -387,7 +387,7 @@ def h_run(fail_at: int, rc: int, f0: bool, f1: bool, hi: int, cfg: int) -> bool:
     retsel, filesel, envsel = CFGS[pick(cfg, len(CFGS))]
     rcs = [(rc if i == fa else 0) for i in range(n)]
     if REAL:
-        rcs = [int(r) % 256 for r in rcs]
+        rcs = [(-9 if int(r) < 0 else int(r) % 256) for r in rcs]        # a negative return code is a death by signal: the real command kills itself
     ret = RET[retsel] or ()
     makes = [f for f, bit in zip(ret, (f0, f1)) if bit]
     spec, first_fail, last = _mk_job(n, named, retsel, filesel, envsel, rcs, makes)
